@@ -111,7 +111,10 @@ def parse_model(line):
     for _ in range(nd):
         kind, pos = get(), get(); t = tok(); sv = tok()
         vals.append(dict(kind=kind, pos=pos, token=t, value=sv))
-    return dict(final=["run", "exit", "crash"][fin], code=code, execs=execs, vals=vals)
+    plan = None
+    if p < len(v) and get() == 1:
+        plan = dict(inp=tok(), in_fmt=tok(), out=tok(), out_fmt=tok())
+    return dict(final=["run", "exit", "crash"][fin], code=code, execs=execs, vals=vals, plan=plan)
 
 # ------------------------------------------------------------------------------------------------ input files
 def make_generated(rng, wd, name, nlayers):
@@ -394,31 +397,43 @@ def gen_tools_cases(R, rng, quick, fsets):
             R.add(tool="om_forward", args=[fs["gain_eeg"], src, out, "0"], off=0, expect="ok", outs=[(out, ref, "matrix")],
                   hcase="FWD %s %s %s 0" % (fs["gain_eeg"], src, ref), cls="positional", model=fs["name"], suffix=s,
                   sym="om_forward gain sources out 0", desc="om_forward, noise level 0 (%s)" % s)
+    if "om_forward" in tools and "gain_eeg" in fs:
+        lvl = rng.choice(["0.5", "2", "1e-3"])
+        out = os.path.join(od, "simulated_noisy.txt")
+        R.add(tool="om_forward", args=[fs["gain_eeg"], os.path.join(od, "sources.txt"), out, lvl], off=0, expect="noisy", outs=[], hcase=None, noisy=(out, os.path.join(od, "simulated.txt"), float(lvl)),
+              cls="positional", model=fs["name"], suffix=".txt", sym="om_forward gain sources out " + lvl, desc="om_forward with noise level %s (not reproducible: std::random_device)" % lvl)
     if "om_matrix_convert" in tools:
         vec = os.path.join(od, "vector.txt")
         with open(vec, "w") as fh: fh.write("\n".join(repr(round(rng.uniform(-5, 5), 4)) for _ in range(5)) + "\n")
-        srcs = [("vector", vec)] + [(k, fs[key]) for k, key in (("sym", "hm"), ("matrix", "dsm"), ("sparse", "h2em")) if key in fs]
-        for kind, inp in srcs:
-            for n, (osfx, inf, outf) in enumerate([(".txt", "", ""), (".mat", "", ""), (".bin", "", ""), (".dat", "", "ascii"), (".out", "", "binary")]):
-                if quick and n >= 3 and rng.random() < 0.5: continue
-                out = os.path.join(od, "conv_%s_%d%s" % (kind, n, osfx)); ref = os.path.join(od, "ref_conv_%s_%d%s" % (kind, n, osfx))
-                args = ["-i", inp, "-o", out]
-                if outf: args += ["-of", outf]
-                if rng.random() < 0.5: args = args[2:4] + args[:2] + args[4:]         # order of typed options is free
-                R.add(tool="om_matrix_convert", args=args, off=0, expect="ok", outs=[(out, ref, kind if osfx in (".mat",) else "bytes")],
-                      hcase="MCONV %s %s %s %s %s" % (kind, inp, ref, inf or "-", outf or "-"), cls="typed", model=fs["name"], suffix=osfx,
-                      typed={"-i": inp, "-o": out, "-of": outf}, sym="om_matrix_convert -i %s%s -o out%s%s" % (kind, os.path.splitext(inp)[1], osfx, (" -of " + outf) if outf else ""),
-                      desc="om_matrix_convert %s -> %s" % (kind, osfx))
-            # explicit input format on a file without telling suffix
-            if kind != "vector" or True:
-                anon = os.path.join(od, "anon_%s.data" % kind)
-                R.add(tool="om_matrix_convert", args=["-i", inp, "-o", anon, "-of", "binary"], off=0, expect="ok", outs=[(anon, os.path.join(od, "ref_anon_%s.data" % kind), "bytes")],
-                      hcase="MCONV %s %s %s - binary" % (kind, inp, os.path.join(od, "ref_anon_%s.data" % kind)), cls="typed", model=fs["name"], suffix=".data",
-                      typed={"-i": inp, "-o": anon, "-of": "binary"}, sym="om_matrix_convert -i %s -o anon.data -of binary" % kind, desc="om_matrix_convert %s -> anonymous binary" % kind)
-                back = os.path.join(od, "back_%s.txt" % kind)
-                R.add(tool="om_matrix_convert", args=["-if", "binary", "-i", anon, "-o", back], off=0, expect="ok", outs=[(back, os.path.join(od, "ref_back_%s.txt" % kind), "bytes")],
-                      hcase="MCONV %s %s %s binary -" % (kind, anon, os.path.join(od, "ref_back_%s.txt" % kind)), cls="typed", model=fs["name"], suffix=".txt",
-                      typed={"-i": anon, "-o": back, "-if": "binary"}, sym="om_matrix_convert -if binary -i anon.data(%s) -o back.txt" % kind, desc="om_matrix_convert anonymous binary %s -> txt with -if" % kind)
+        srcs = [("vector", vec, "ascii")] + [(k, fs[key], "binary") for k, key in (("sym", "hm"), ("matrix", "dsm"), ("sparse", "h2em")) if key in fs]
+        FMT = {".txt": "ascii", ".bin": "binary", ".mat": "matlab"}
+        n = 0
+        for kind, inp, infmt in srcs:
+            # every combination: -if absent/present x -of absent/present, telling and non-telling output suffixes
+            combos = [(ifg, ofg, osfx) for ifg in (False, True) for ofg in (None, "ascii", "binary", "matlab") for osfx in (".txt", ".bin", ".mat", ".dat")
+                      if not (ofg is None and osfx == ".dat")]
+            if quick: combos = rng.sample(combos, 9)
+            for ifg, ofg, osfx in combos:
+                n += 1
+                out = os.path.join(od, "conv%d_%s%s" % (n, kind, osfx)); ref = os.path.join(od, "ref_conv%d_%s%s" % (n, kind, osfx))
+                parts = [["-i", inp], ["-o", out]] + ([["-if", infmt]] if ifg else []) + ([["-of", ofg]] if ofg else [])
+                rng.shuffle(parts)                                  # the order of typed options is free
+                args = [x for pr in parts for x in pr]
+                want = dict(inp=inp, in_fmt=infmt if ifg else "auto", out=out, out_fmt=ofg or FMT[osfx])
+                outfmt = want["out_fmt"]
+                R.add(tool="om_matrix_convert", args=args, off=0, expect="ok", outs=[(out, ref, kind if outfmt == "matlab" else "bytes")], hcase=None, conv=(kind, ref),
+                      plan=want, cls="typed", model=fs["name"], suffix=osfx, typed={"-i": inp, "-o": out, "-if": infmt if ifg else "", "-of": ofg or ""},
+                      sym="om_matrix_convert -i %s%s -o out%s%s%s" % (kind, os.path.splitext(inp)[1], osfx, " -if " + infmt if ifg else "", (" -of " + ofg) if ofg else ""),
+                      desc="om_matrix_convert %s -> %s%s%s" % (kind, osfx, " -if" if ifg else "", (" -of " + ofg) if ofg else ""))
+        # round trip through a file whose suffix tells nothing: the input format must come from -if or from the content
+        for kind, inp, infmt in srcs[1:]:
+            anon = os.path.join(od, "anon_%s.data" % kind); back = os.path.join(od, "back_%s.txt" % kind)
+            R.add(tool="om_matrix_convert", args=["-i", inp, "-o", anon, "-of", "binary"], off=0, expect="ok", outs=[(anon, os.path.join(od, "ref_anon_%s.data" % kind), "bytes")], hcase=None,
+                  conv=(kind, os.path.join(od, "ref_anon_%s.data" % kind)), plan=dict(inp=inp, in_fmt="auto", out=anon, out_fmt="binary"), cls="typed", model=fs["name"], suffix=".data",
+                  typed={"-i": inp, "-o": anon, "-of": "binary"}, sym="om_matrix_convert -i %s -o anon.data -of binary" % kind, desc="om_matrix_convert %s -> anonymous binary" % kind)
+            R.add(tool="om_matrix_convert", args=["-if", "binary", "-i", anon, "-o", back], off=0, expect="ok", outs=[(back, os.path.join(od, "ref_back_%s.txt" % kind), "bytes")], hcase=None,
+                  conv=(kind, os.path.join(od, "ref_back_%s.txt" % kind)), plan=dict(inp=anon, in_fmt="binary", out=back, out_fmt="ascii"), cls="typed", model=fs["name"], suffix=".txt",
+                  typed={"-i": anon, "-o": back, "-if": "binary"}, sym="om_matrix_convert -if binary -i anon.data(%s) -o back.txt" % kind, desc="om_matrix_convert anonymous binary %s -> txt with -if" % kind)
     if "om_check_geom" in tools:
         for f2 in fsets:
             combos = [[], ["-m", f2["srcmesh"]], ["-d", f2["dip"]], ["-v"], ["-m", f2["srcmesh"], "-d", f2["dip"], "-v"]]
@@ -604,6 +619,10 @@ def gen_documented(R, rng, fsets):
                 c["cls"] = "documented-alias"
 
 # ------------------------------------------------------------------------------------------------ evaluation
+def via_library(c, po, kind):
+    """MATLAB (HDF5) files carry creation dates: they are compared by loading both with the library"""
+    return kind != "bytes" and (po.endswith(".mat") or (c.get("plan") or {}).get("out_fmt") == "matlab")
+
 def evaluate(ck, R, c, pred, rc, txt, before, after, hres):
     """returns list of (signature, description) problems for one case"""
     probs = []
@@ -652,7 +671,7 @@ def evaluate(ck, R, c, pred, rc, txt, before, after, hres):
             P("library call fails", "the corresponding library call failed in the harness: %s" % hres)
         if rc == 0 and (hres is None or hres.startswith("0")):
             for po, pr, kind in c["outs"]:
-                if po.endswith(".mat") and kind != "bytes":
+                if via_library(c, po, kind):
                     continue                  # compared through the library afterwards (CMP)
                 ok, why = same_file(po, pr)
                 if not ok:
@@ -682,6 +701,18 @@ def evaluate(ck, R, c, pred, rc, txt, before, after, hres):
             P("missing input file ignored", "the %s file (parameter %d) does not exist but the tool succeeded: it is read from another position" % (r, p))
         if any(os.path.exists(q) for q in c["probe_outs"]):
             P("output written although an input is missing", "outputs: %s" % [os.path.basename(q) for q in c["probe_outs"] if os.path.exists(q)])
+    if c.get("plan") and pred is not None:
+        if pred.get("plan") != c["plan"]:
+            P("conversion plan differs from the documentation", "model (generated from the source): %s, documented: %s" % (pred.get("plan"), c["plan"]))
+    if exp == "noisy":
+        out, clean, lvl = c["noisy"]
+        if rc != 0 or not os.path.exists(out): P("documented line fails", "om_forward with a positive noise level")
+        elif os.path.exists(clean):
+            x, y = numbers(out), numbers(clean)
+            if len(x) != len(y) or not all(isinstance(u, float) for u in x): P("noisy output has another shape", "%d vs %d values" % (len(x), len(y)))
+            else:
+                d = [u - v for u, v in zip(x, y)]; rms = (sum(e * e for e in d) / max(1, len(d))) ** 0.5
+                if not (0.15 * lvl <= rms <= 4.0 * lvl): P("noise level not honoured", "rms difference to the noiseless data %.3g for level %g (%d values)" % (rms, lvl, len(d)))
     # ---- typed options: value the model extracts = value documented
     if c.get("typed") and pred is not None:
         t = R.tools[R.tidx[c["tool"]]]
@@ -737,6 +768,12 @@ def main(replay=None):
     for c in keep:
         if c["tool"] is not None and c["tool"] in R.tidx:
             preds[c["id"]] = parse_model(mo[k]); k += 1
+    # om_matrix_convert: the library call is made with the file names and formats the MODEL predicts (no suffix logic in the harness)
+    for c in keep:
+        if c.get("conv") and preds.get(c["id"]) and preds[c["id"]].get("plan"):
+            pl = preds[c["id"]]["plan"]; kind, ref = c["conv"]
+            if pl["inp"] and pl["out_fmt"]:
+                c["hcase"] = "MCONV %s %s %s %s %s" % (kind, pl["inp"], ref, "-" if pl["in_fmt"] == "auto" else pl["in_fmt"], pl["out_fmt"])
     # ---- executables (in order: later cases read files written by earlier ones)
     runs = {}
     for c in keep:
@@ -754,8 +791,8 @@ def main(replay=None):
     for c in keep:
         if c["expect"] == "ok" and (c["tool"] is None or runs[c["id"]][0] == 0):
             for po, pr, kind in c["outs"]:
-                if po.endswith(".mat") and kind != "bytes" and os.path.exists(po) and os.path.exists(pr):
-                    cmpc.append((c, "CMP %s %s %s" % (kind, po, pr), po))
+                if via_library(c, po, kind) and os.path.exists(po) and os.path.exists(pr):
+                    cmpc.append((c, "CMP %s %s %s matlab" % (kind, po, pr), po))
     rc2, cout, _ = core.run_harness(hb, [x[1] for x in cmpc], wd, tag="cmp") if cmpc else (0, [], "")
     ck.log("harness done at %.1fs" % (time.time() - ck.t0))
     # ---- decide
